@@ -42,8 +42,12 @@ def c01(tier, seed):
               "templates); engine generate_moves() compared as a set of (from,to,promo) triples with the oracle's legal moves; "
               "non-trivial = distinct position (FEN fields 1-4) that is in check, has an ep square, a pinned piece or a castling right")
     c.assumptions = API_ASSUME
+    res = _uci("replay", seed, 24 if q else 400)
+    _uci_crashes(c, res)
+    _uci_perfts(c, res)
     c.require("positions", 100000 if q else 5000000)
     c.require("synth:ep-matrix", 1000)
+    c.require("uci-perft-counts-compared", 100)
     return c.finish()
 
 
@@ -67,8 +71,12 @@ def c02(tier, seed):
               "distinct counted per position")
     c.distinct = int(c.counters.get("positions", 0))
     c.assumptions = API_ASSUME + ["half-move clocks stay <= 150 (75-move rule ends legal play)"]
+    res = _uci("replay", seed + 1, 32 if q else 600)
+    _uci_crashes(c, res)
+    _uci_boards(c, res)
     for k in ["class:castleK", "class:castleQ", "class:ep", "class:promo", "class:promo-capture", "class:rook-captured-at-home"]:
         c.require(k, 300 if q else 20000)
+    c.require("uci-printboard-fens-compared", 300)
     return c.finish()
 
 
@@ -298,6 +306,17 @@ def c19(tier, seed):
               "moves (castling as king-takes-rook, promotions) equal the oracle's; non-trivial = distinct files / (position, weight vector)")
     c.assumptions = ["keys with all weights zero are not sampled (the statement gives them no meaning)",
                      "7-sigma acceptance band: false-alarm probability < 1e-11 per test"]
+    res = _uci("book", seed + 4, 48 if q else 600)
+    _uci_crashes(c, res)
+    for r_ in res:
+        for g in r_["gos"]:
+            c.evaluations += 1
+            c.counters["uci-book-answers"] = c.counters.get("uci-book-answers", 0) + 1
+            bm = [l.split()[1] for l in g["out"] if l.startswith("bestmove") and len(l.split()) > 1]
+            if not bm or bm[0] not in g["legal"]:
+                c.add_violation("uci-book:answer-not-allowed-by-book:" + r_["tag"].split(":")[1],
+                                {"tag": r_["tag"], "fen": g["fen"], "answer": bm, "book_allows": g["legal"], "cmds": r_["cmds"][-5:]})
+    c.require("uci-book-answers", 100)
     c.require("files:empty", 8)
     c.require("files:truncated-tail", 500)
     c.require("weight-vectors-sampled", 1000)
@@ -339,6 +358,10 @@ def c05(tier, seed):
               "16th root, random k up to 10^5); exactly one bestmove, legal; every pv replayed on the oracle board; "
               "non-trivial = distinct (position, go, table) triples")
     c.assumptions = SEARCH_ASSUME + ["poisoned tables are judged for legality only"]
+    res = _uci("multigame", seed + 2, 32 if q else 600)
+    _uci_crashes(c, res)
+    _uci_judge(c, "C05", res)
+    c.require("uci-go-commands-judged", 300)
     c.require("searches:poisoned", 300)
     c.require("stop:before-iter1", 100)
     c.require("stop:later", 50)
@@ -371,6 +394,10 @@ def c09(tier, seed):
               "search just stored for the root, with and without epoch bump), time/clock/movestogo limits terminate (node-visit cap as "
               "logical witness), depth limits 39/40/41/42/60/100/1000 on cheap positions; non-trivial = distinct (position, go, table)")
     c.assumptions = SEARCH_ASSUME + ["termination for large depth limits is decided on cheap positions only (bounded restatement, DESIGN.md C09)"]
+    res = _uci("multigame", seed + 3, 24 if q else 400) + _uci("deepdepth", seed + 3, 14 if q else 56)
+    _uci_crashes(c, res)
+    _uci_judge(c, "C09", res)
+    c.require("uci-go-commands-judged", 200)
     c.require("deep-limit-searches", 80)
     c.require("searches:root-entry-outside-S:epoch-bumped", 50)
     c.require("searches:root-entry-outside-S:same-epoch", 50)
@@ -426,6 +453,61 @@ def _session_problems(c, res, memory_verdict=True):
         for pbl in res["problems"]:
             if rc == 0:
                 c.add_violation("session:" + pbl, ex)
+
+
+def _uci(kind, seed, n, flavour="asan", go_timeout=90):
+    from . import session as S
+    d = core.ensure_engine(flavour)
+    exe = os.path.join(d, "chessplusplus")
+    sessions = S.gen_sessions(kind, seed, n)
+    return _run_sessions(exe, sessions, go_timeout=go_timeout)
+
+
+def _uci_crashes(c, results):
+    for res in results:
+        c.counters["uci-sessions"] = c.counters.get("uci-sessions", 0) + 1
+        if res.get("aborted"):
+            c.add_violation("uci:session-stalled:" + ",".join(res["problems"]), {"tag": res["tag"], "cmds": res["cmds"][-6:]})
+        elif res["rc"] not in (0, None):
+            reps = core.parse_sanitizer(res["stderr"])
+            fatal = [r for r in reps if r["tool"] in ("asan", "bound")]
+            key = "uci-crash:%s" % (("%s:%s@%s" % (fatal[0]["tool"], fatal[0]["kind"], fatal[0]["frame"])) if fatal else "rc=%s" % res["rc"])
+            c.add_violation(key, {"tag": res["tag"], "cmds": res["cmds"][-6:], "stderr_tail": res["stderr"][-400:]})
+
+
+def _uci_boards(c, results):
+    names = ["placement", "side", "castling", "ep", "halfmove", "fullmove"]
+    for res in results:
+        for want, got in res["boards"]:
+            c.evaluations += 1
+            c.counters["uci-printboard-fens-compared"] = c.counters.get("uci-printboard-fens-compared", 0) + 1
+            if got != want:
+                field = "missing"
+                if got:
+                    a, b = got.split(), want.split()
+                    field = next((names[i] for i in range(min(len(a), len(b), 6)) if a[i] != b[i]), "format")
+                c.add_violation("uci-path:" + field, {"tag": res["tag"], "engine_fen": got, "oracle_fen": want,
+                                                      "last_cmds": [x[:200] for x in res["cmds"][-3:]]})
+
+
+def _uci_perfts(c, results):
+    for res in results:
+        for depth, want, got in res["perfts"]:
+            c.evaluations += 1
+            c.counters["uci-perft-counts-compared"] = c.counters.get("uci-perft-counts-compared", 0) + 1
+            if got != want:
+                c.add_violation("uci-perft:count-mismatch:depth%d" % depth, {"tag": res["tag"], "engine": got, "oracle": want,
+                                                                            "last_cmds": [x[:200] for x in res["cmds"][-3:]]})
+
+
+def _uci_judge(c, prop, results):
+    from . import session as S
+    w = S.judge(prop, results)
+    c.absorb(w)
+    for res in results:
+        ngo = len(res["gos"])
+        if res["all_bestmoves"] != sum(1 for g in res["gos"] if g["answered"]) and not res.get("aborted") and prop == "C05":
+            c.add_violation("two-bestmoves:uci-session", {"tag": res["tag"], "bestmove_lines": res["all_bestmoves"], "go_commands": ngo})
 
 
 def c10(tier, seed):
